@@ -171,7 +171,7 @@ def c09_scenarios(tier, seed):
     rnd = random.Random(seed)
     shapes = {"single": {"alfa": []}, "chain": {"alfa": [], "bravo": ["alfa"], "carlo": ["bravo"]}, "fan": {"alfa": [], "bravo": [], "carlo": ["alfa", "bravo"]},
               "diamond": {"alfa": [], "bravo": ["alfa"], "carlo": ["alfa"], "delta": ["bravo", "carlo"]}}
-    flags = [[], ["--quiet"], ["--json"], ["--force"]]
+    flags = [[], ["--quiet"], ["--json"], ["--force"], ["--quiet", "--force"], ["--json", "--force"]]
     scen, meta = [], []
     n = 440 if tier == "quick" else 16000
     boundary = [1, 2, 3, 64, 100, 125, 126, 127, 128, 129, 130, 137, 143, 200, 254, 255]
@@ -192,7 +192,9 @@ def c09_scenarios(tier, seed):
                     fails, status = (name == target and k == pos), single[0]
                 else:
                     fails, status = (anyfail and rnd.random() < 0.25), rnd.choice(boundary)
-                cmds.append({"marker": "%s.%d" % (name, k + 1), "fails": fails, "status": status})
+                # how the command fails: an exit status, a failing utility, a command that does not exist, a child killed by a signal
+                style = "exit" if single else rnd.choice(["exit", "exit", "false", "missing", "signal", "subshell"])
+                cmds.append({"marker": "%s.%d" % (name, k + 1), "fails": fails, "status": status, "style": style})
             tasks.append({"name": name, "deps": deps[name], "cmds": cmds})
         req = [rnd.choice(list(deps))] if rnd.random() < 0.5 else [list(deps)[-1]]
         text = ""
@@ -202,7 +204,9 @@ def c09_scenarios(tier, seed):
             args = ['"%s.txt"' % t["name"]] + t["deps"]
             text += "task %s(%s) {\n" % (t["name"], ", ".join(args))
             for c in t["cmds"]:
-                text += "    echo %s >> %s" % (c["marker"], LOG) + ("; exit %d" % c["status"] if c["fails"] else "") + "\n"
+                tail = {"exit": "; exit %d" % c["status"], "false": "; false", "missing": "; no-such-command-%s" % name, "signal": "; sh -c 'kill -KILL $$'",
+                        "subshell": "; (exit %d)" % c["status"]}[c["style"]] if c["fails"] else ""
+                text += "    echo %s >> %s" % (c["marker"], LOG) + tail + "\n"
             text += "}\n\n"
         files.append({"p": "proj/spokfile", "c": text})
         fl = flags[single[1]] if single else rnd.choice(flags)
@@ -540,8 +544,18 @@ def c20_scenarios(tier, seed):
             cmds = []
             for c in range(rnd.randint(0, 4)):
                 mk = "%s.%d" % (nm, c + 1)
-                text = "echo o-%s; echo e-%s 1>&2; echo %s >> %s" % (mk, mk, mk, LOG)
-                cmds.append({"text": text, "out": "o-%s\n" % mk, "err": "e-%s\n" % mk, "marker": mk})
+                shape = rnd.choice(["both", "both", "noeol", "erronly", "twolines", "silent"])
+                if shape == "both":
+                    text, out, err = "echo o-%s; echo e-%s 1>&2; echo %s >> %s" % (mk, mk, mk, LOG), "o-%s\n" % mk, "e-%s\n" % mk
+                elif shape == "noeol":          # output that does not end in a newline
+                    text, out, err = "printf o-%s; echo %s >> %s" % (mk, mk, LOG), "o-%s" % mk, ""
+                elif shape == "erronly":
+                    text, out, err = "echo e-%s 1>&2; echo %s >> %s" % (mk, mk, LOG), "", "e-%s\n" % mk
+                elif shape == "twolines":
+                    text, out, err = "echo a-%s; echo b-%s; echo %s >> %s" % (mk, mk, mk, LOG), "a-%s\nb-%s\n" % (mk, mk), ""
+                else:
+                    text, out, err = "echo %s >> %s" % (mk, LOG), "", ""
+                cmds.append({"text": text, "out": out, "err": err, "marker": mk})
             doc = ("Does %s things" % nm) if rnd.random() < 0.6 else ""
             tasks.append({"name": nm, "doc": doc, "deps": deps, "cmds": cmds, "hasfile": rnd.random() < 0.5})
         nv = rnd.randint(0, 5)
@@ -579,7 +593,7 @@ def c20_scenarios(tier, seed):
         # the log path differs per sandbox: expected command text is completed after the run (placeholder kept here)
         steps = [{"cwd": "proj", "argv": req + ["--json"], "env": {}}, {"cwd": "proj", "argv": req + ["--json"], "env": {}}, {"cwd": "proj", "argv": req + ["--quiet"], "env": {}},
                  {"cwd": "proj", "argv": ["--show"], "env": {}}, {"cwd": "proj", "argv": ["--vars"], "env": {}}, {"cwd": "proj", "argv": [], "env": {}},
-                 {"cwd": "proj", "argv": ["--json"], "env": {}}]
+                 {"cwd": "proj", "argv": ["--json"], "env": {}}, {"cwd": "proj", "argv": req + ["--json", "--force"], "env": {}}]
         scen.append({"id": len(scen) + 1, "files": files, "steps": steps})
         dclo, stack = [], (["default"] if "default" in names else [])
         while stack:
@@ -588,7 +602,7 @@ def c20_scenarios(tier, seed):
                 dclo.append(x)
                 stack += [d for t in tasks if t["name"] == x for d in t["deps"]]
         meta.append({"tasks": tasks, "vars": vars_, "req": req, "closure": clo, "dclosure": dclo,
-                     "modes": ["json", "json", "quiet", "show", "vars", "noargs", "json-noargs"]})
+                     "modes": ["json", "json", "quiet", "show", "vars", "noargs", "json-noargs", "json"]})
     return scen, meta
 
 
